@@ -778,4 +778,61 @@ theorem lin_opPow {a c : Impl K} {n : Nat} (h : opPow a n = some c) : c.lin = a.
     split_ifs at h; cases h; exact lin_powAux a _
 
 
+/-! ### merged normal form -/
+
+theorem merged_mkLScal (fn : Bool) (a : Impl K) (s : K) (h : a.merged = true) :
+    (mkLScal fn a s).merged = true := by
+  cases a <;> simp_all [mkLScal, Impl.merged, Impl.isLScal]
+
+theorem merged_mkRScal (fn : Bool) (a : Impl K) (s : K) (h : a.merged = true) :
+    (mkRScal fn a s).merged = true := by
+  cases a <;> simp_all [mkRScal, Impl.merged, Impl.isRScal]
+
+theorem merged_opRMulScal (a : Impl K) (s : K) (h : a.merged = true) :
+    (opRMulScal s a).merged = true := by
+  unfold opRMulScal
+  split_ifs
+  · rfl
+  · exact merged_mkLScal _ _ _ h
+  · exact merged_mkLScal _ _ _ h
+
+theorem merged_opMulScal (env : Nat → Vec K → Vec K) (a : Impl K) (s : K) (re : Bool)
+    (h : a.merged = true) : (opMulScal env a s re).merged = true := by
+  unfold opMulScal
+  by_cases h1 : a.isFn = true
+  · rw [if_pos h1]
+    by_cases h2 : s = 0
+    · rw [if_pos h2]; rfl
+    · rw [if_neg h2]
+      by_cases h3 : (a.lin && re) = true
+      · rw [if_pos h3]; exact merged_mkLScal _ _ _ h
+      · rw [if_neg h3]; exact merged_mkRScal _ _ _ h
+  · rw [if_neg h1]
+    cases hp : rscalParts a with
+    | some p =>
+      obtain ⟨a', t⟩ := p
+      obtain ⟨fn, rfl⟩ := rscalParts_some hp
+      simp only [Impl.merged, Bool.and_eq_true] at h
+      exact merged_mkRScal _ _ _ h.1
+    | none =>
+      simp only
+      by_cases h4 : (a.lin && re) = true
+      · rw [if_pos h4]; exact merged_opRMulScal a s h
+      · rw [if_neg h4]; exact merged_mkRScal _ _ _ h
+
+theorem merged_powAux (a : Impl K) (k : Nat) (h : a.merged = true) :
+    (powAux a k).merged = true := by
+  induction k with
+  | zero => exact h
+  | succ k ih => simp [powAux, Impl.merged, h, ih]
+
+theorem merged_opAddScal {a c : Impl K} {s : K} (h : opAddScal a s = some c)
+    (ha : a.merged = true) : c.merged = true := by
+  unfold opAddScal at h
+  split_ifs at h
+  · cases h; simpa [Impl.merged] using ha
+  · cases hr : a.ran <;> rw [hr] at h <;> simp only at h
+    · cases h; simpa [Impl.merged] using ha
+    · cases h
+
 end OdlModel.OpAlgebra
